@@ -41,7 +41,8 @@ META = {
             "at most one place), writes only by the owner, held buffers never change, every published / queued / delivered payload "
             "is marshal(decode(cache-at-decode, addr, octets)) of one received datagram's own octets, MQ elements are private "
             "copies and the encode buffer is empty before each use. The four worker loops and four read loops are re-extracted "
-            "from vflow/*.go on every run and must satisfy Canonical / equal the modelled read loop (decide). The real pipeline "
+            "from vflow/*.go on every run and must satisfy Canonical / equal the modelled read loop, with nothing after the loop but "
+            "the reader closing its own UDP channel (decide). The real pipeline "
             "(read loop over loopback UDP, pools, channels, 1..64 workers) is run on generated traffic; every published payload "
             "must equal the solo Decode+JSONMarshal of exactly one datagram; counters are compared with the model's run.",
     "ref": "DESIGN.md §6 C12",
